@@ -11,6 +11,7 @@ import (
 	"math/rand/v2"
 	"os"
 	"path/filepath"
+	"sort"
 	"strings"
 
 	"github.com/ohler55/slip"
@@ -139,17 +140,84 @@ func (w *world) do(fn func() slip.Object) obs {
 	err := sl.Catch(func() { res = fn() })
 	o := obs{err: err, over: w.over, trace: append([]int64{}, trace...)}
 	if err == nil {
-		o.val = sl.Show(res)
+		// keywords in a value (a &rest list of keyword arguments) carry the world's name prefix
+		o.val = strings.ReplaceAll(sl.Show(res), ":"+w.sfx, ":r_")
 	}
 	return o
 }
 
 func defunSrc(i int, v Ver) string {
-	def := fmt.Sprintf("(defun @f%d (%s) %s)", i, strings.Join(v.Params, " "), v.Body)
+	ll := strings.Join(v.Params, " ")
+	if v.Tail != "" {
+		ll = strings.TrimSpace(ll + " " + v.Tail)
+	}
+	def := fmt.Sprintf("(defun @f%d (%s) %s)", i, ll, v.Body)
+	if v.Macro {
+		def = fmt.Sprintf("(defmacro @f%d (%s) %s)", i, ll, v.Body)
+	}
 	if 0 < len(v.Wrap) {
 		def = strings.Join(v.Wrap, " ") + " " + def + strings.Repeat(")", len(v.Wrap))
 	}
 	return def
+}
+
+// tailInfo is what a redefinition can change about the way a function takes
+// its arguments.
+type tailInfo struct {
+	nopt   int
+	rest   bool
+	hasKey bool
+	keys   string // sorted key names
+	macro  bool
+	text   string
+}
+
+func tailOf(v Ver) tailInfo {
+	ti := tailInfo{macro: v.Macro, text: v.Tail}
+	mode := ""
+	var keys []string
+	for _, n := range ref.MustParse("(" + instantiate(v.Tail, "r_") + ")")[0].List {
+		name := n.Sym
+		if n.Kind == 'l' && 0 < len(n.List) {
+			name = n.List[0].Sym
+		}
+		switch {
+		case strings.HasPrefix(name, "&"):
+			mode = name
+			ti.hasKey = ti.hasKey || name == "&key"
+		case mode == "&optional":
+			ti.nopt++
+		case mode == "&rest":
+			ti.rest = true
+		case mode == "&key":
+			keys = append(keys, name)
+		}
+	}
+	sort.Strings(keys)
+	ti.keys = strings.Join(keys, ",")
+	return ti
+}
+
+// reshapes in the order in which they name a signature.
+var reshapes = []string{"keys", "optional", "rest", "kind", "init"}
+
+// reshape names what the step from version a to version b of a function
+// changes about its lambda list ("" = only parameter names or nothing).
+func reshape(a, b Ver) string {
+	ta, tb := tailOf(a), tailOf(b)
+	switch {
+	case ta.hasKey != tb.hasKey || ta.keys != tb.keys:
+		return "keys"
+	case ta.nopt != tb.nopt:
+		return "optional"
+	case ta.rest != tb.rest:
+		return "rest"
+	case ta.macro != tb.macro:
+		return "kind"
+	case ta.text != tb.text:
+		return "init"
+	}
+	return ""
 }
 
 func globalSrc(k int, v int64) string { return fmt.Sprintf("(defvar *@g%d* %d)", k, v) }
@@ -354,6 +422,90 @@ var probes = []Case{
 		Main: "(list (@f0 3 4) (@f1))", K: 3,
 		Hist: []Step{{Op: "run", Obj: -1}, {Op: "redef", Fn: 0, Ver: 1}, {Op: "run", Obj: 0}, {Op: "run", Obj: -1}},
 	},
+	{ // &key parameters that grow, are renamed, shrink and give way to &rest; every call site fits every
+		// version (slip allows and ignores other keywords); called before and after each redefinition
+		Kind: "probe",
+		Fns: []Fn{
+			{Ret: "list", Rec: -1, Vers: []Ver{{Params: []string{"@x"},
+				Body: "(list (@f1 @x :@kb @x) (@f1 @x :@ka 2 :@kc 3) (@f1 @x) (funcall #'@f1 @x :@kc 8))"}}},
+			{Ret: "list", Rec: -1, Vers: []Ver{
+				{Params: []string{"@a"}, Tail: "&key (@ka 5)", Body: "(list @a @ka)"},
+				{Params: []string{"@a"}, Tail: "&key (@ka 5) (@kb 7)", Body: "(list @a @ka @kb)"},
+				{Params: []string{"@a"}, Tail: "&key (@kc 1) (@kb (+ @a 1))", Body: "(list @a @kc @kb)"},
+				{Params: []string{"@a"}, Tail: "&key @kb", Body: "(list @a @kb)"},
+				{Params: []string{"@a"}, Tail: "&rest @rs &key (@ka 9)", Body: "(list @a @ka @rs)"},
+				{Params: []string{"@a"}, Tail: "&rest @rs", Body: "(list @a @rs)"},
+				{Params: []string{"@a"}, Tail: "&key (@kc (vtr 7 4)) @ka", Body: "(list @a @kc @ka)"}}},
+		},
+		Main: "(list (@f0 1) (@f1 2 :@ka 3) (@f1 2 :@kb 4 :@ka 6) (funcall #'@f1 3 :@kc 8) (apply #'@f1 (list 4 :@kb 5)) (@f1 5))", K: 3,
+		Hist: []Step{{Op: "run", Obj: -1}, {Op: "run", Obj: 0},
+			{Op: "redef", Fn: 1, Ver: 1}, {Op: "run", Obj: 0}, {Op: "run", Obj: -1, Compiled: true},
+			{Op: "redef", Fn: 1, Ver: 2, Compiled: true}, {Op: "run", Obj: 0}, {Op: "run", Obj: 1}, {Op: "run", Obj: -1},
+			{Op: "redef", Fn: 1, Ver: 3, Via: "evalfn"}, {Op: "run", Obj: 2}, {Op: "run", Obj: -1},
+			{Op: "redef", Fn: 1, Ver: 4, Via: "load"}, {Op: "run", Obj: 0}, {Op: "run", Obj: -1, Compiled: true},
+			{Op: "redef", Fn: 1, Ver: 5, Via: "cstring"}, {Op: "run", Obj: 1}, {Op: "run", Obj: -1},
+			{Op: "redef", Fn: 1, Ver: 6}, {Op: "run", Obj: 0}, {Op: "run", Obj: 3}, {Op: "run", Obj: -1}},
+	},
+	{ // &optional parameters added and removed behind the required one, &rest added; call sites that fit every
+		// version, and call sites inside ignore-errors that only some versions accept
+		Kind: "probe",
+		Fns: []Fn{
+			{Ret: "list", Rec: -1, Vers: []Ver{{Params: []string{"@x"},
+				Body: "(list (@f1 @x) (@f2 @x) (@f2 @x (+ @x 1)) (list (ignore-errors (@f1 @x 8))) (list (ignore-errors (@f2 @x 8 9))))"}}},
+			{Ret: "list", Rec: -1, Vers: []Ver{
+				{Params: []string{"@a"}, Body: "(list @a)"},
+				{Params: []string{"@a"}, Tail: "&optional (@o1 (+ @a 10))", Body: "(list @a @o1)"},
+				{Params: []string{"@a"}, Tail: "&rest @rs", Body: "(list @a @rs)"},
+				{Params: []string{"@a"}, Body: "(list @a 0)"}}},
+			{Ret: "list", Rec: -1, Vers: []Ver{
+				{Params: []string{"@a"}, Tail: "&optional (@o1 3)", Body: "(list @a @o1)"},
+				{Params: []string{"@a"}, Tail: "&optional (@o1 4) (@o2 @a)", Body: "(list @a @o1 @o2)"},
+				{Params: []string{"@a"}, Tail: "&optional @o1 &rest @rs", Body: "(list @a @o1 @rs)"},
+				{Params: []string{"@a"}, Tail: "&optional (@u1 6)", Body: "(list @a @u1)"}}},
+		},
+		Main: "(list (@f0 1) (@f1 2) (@f2 3) (@f2 4 5) (list (ignore-errors (@f1 5 6))) (list (ignore-errors (@f2 5 6 7))) (list (ignore-errors (funcall #'@f1 1 2 3))))", K: 3,
+		Hist: []Step{{Op: "run", Obj: -1}, {Op: "run", Obj: 0},
+			{Op: "redef", Fn: 1, Ver: 1}, {Op: "run", Obj: 0}, {Op: "run", Obj: -1, Compiled: true},
+			{Op: "redef", Fn: 2, Ver: 1, Compiled: true}, {Op: "run", Obj: 0}, {Op: "run", Obj: 1}, {Op: "run", Obj: -1},
+			{Op: "redef", Fn: 1, Ver: 2, Via: "evalfn"}, {Op: "redef", Fn: 2, Ver: 2, Via: "load"}, {Op: "run", Obj: 0}, {Op: "run", Obj: -1, Compiled: true},
+			{Op: "redef", Fn: 1, Ver: 3}, {Op: "redef", Fn: 2, Ver: 3, Via: "cstring"}, {Op: "run", Obj: 0}, {Op: "run", Obj: 2}, {Op: "run", Obj: -1}},
+	},
+	{ // only the init forms change: a literal, a global that every call changes, a variable of the enclosing let
+		Kind: "probe", Globals: []int64{3},
+		Fns: []Fn{
+			{Ret: "list", Rec: -1, Vers: []Ver{{Params: []string{"@x"}, Body: "(list (@f1 @x) (@f1 @x :@ka 1) (@f2 @x) (@f2 @x 2))"}}},
+			{Ret: "list", Rec: -1, Vers: []Ver{
+				{Params: []string{"@a"}, Tail: "&key (@ka *@g0*)", Body: "(progn (setq *@g0* (+ *@g0* 1)) (list @a @ka))"},
+				{Params: []string{"@a"}, Tail: "&key (@ka (* *@g0* 2))", Body: "(progn (setq *@g0* (+ *@g0* 1)) (list @a @ka))"},
+				{Params: []string{"@a"}, Tail: "&key (@ka (+ @c @a))", Body: "(list @a @ka @c)", Wrap: []string{"(let ((@c 40))"}},
+				{Params: []string{"@a"}, Tail: "&key (@ka 77)", Body: "(list @a @ka)"}}},
+			{Ret: "list", Rec: -1, Vers: []Ver{
+				{Params: []string{"@a"}, Tail: "&optional (@o1 (vtr 5 11))", Body: "(list @a @o1)"},
+				{Params: []string{"@a"}, Tail: "&optional (@o1 (vtr 6 (+ @a *@g0*)))", Body: "(list @a @o1)"},
+				{Params: []string{"@a"}, Tail: "&optional (@o1 12)", Body: "(list @a @o1)"}}},
+		},
+		Main: "(list (@f0 1) (@f1 2) (@f1 3 :@ka 4) (@f2 5) (@f2 6 7))", K: 4,
+		Hist: []Step{{Op: "run", Obj: -1}, {Op: "run", Obj: 0},
+			{Op: "redef", Fn: 1, Ver: 1}, {Op: "redef", Fn: 2, Ver: 1, Compiled: true}, {Op: "run", Obj: 0}, {Op: "run", Obj: -1, Compiled: true}, {Op: "run", Obj: 1},
+			{Op: "redef", Fn: 1, Ver: 2}, {Op: "redef", Fn: 2, Ver: 2, Via: "evalfn"}, {Op: "run", Obj: 0}, {Op: "run", Obj: 1}, {Op: "run", Obj: -1},
+			{Op: "redef", Fn: 1, Ver: 3, Via: "load"}, {Op: "run", Obj: 0}, {Op: "run", Obj: 2}, {Op: "run", Obj: -1}},
+	},
+	{ // a function becomes a macro of the same call shape and a function again; it is called from the main form
+		// only and after a change of kind only code objects made after it are run (code processed while the name
+		// was of the other kind has no defined meaning)
+		Kind: "probe",
+		Fns: []Fn{
+			{Ret: "list", Rec: -1, Vers: []Ver{
+				{Params: []string{"@a"}, Body: "(list @a (+ @a 1))"},
+				{Params: []string{"@a"}, Macro: true, Body: "`(list ,@a (+ ,@a 2))"},
+				{Params: []string{"@a"}, Body: "(list @a (+ @a 3))"}}},
+			{Ret: "int", Rec: -1, Vers: []Ver{{Params: []string{"@k"}, Body: "(+ @k 1)"}}},
+		},
+		Main: "(list (@f0 (vtr 1 2)) (@f0 3) (@f1 4))", K: 3,
+		Hist: []Step{{Op: "run", Obj: -1}, {Op: "run", Obj: 0},
+			{Op: "redef", Fn: 0, Ver: 1}, {Op: "run", Obj: -1}, {Op: "run", Obj: 1}, {Op: "run", Obj: -1, Compiled: true},
+			{Op: "redef", Fn: 0, Ver: 2, Compiled: true}, {Op: "run", Obj: -1}, {Op: "run", Obj: 3}, {Op: "run", Obj: -1, Compiled: true}},
+	},
 }
 
 func yn(b bool) string {
@@ -444,6 +596,30 @@ func exec(x *fw.Ctx, c Case) {
 		}
 	}
 
+	shapedProg := false
+	for _, fn := range c.Fns {
+		for vi, v := range fn.Vers {
+			ti := tailOf(v)
+			if v.Tail != "" {
+				shapedProg = true
+				x.Cover(fmt.Sprintf("fn:lambda-list optional=%d rest=%s key=%s", ti.nopt, yn(ti.rest), yn(ti.hasKey)))
+			}
+			if 0 < vi {
+				if k := reshape(fn.Vers[vi-1], v); k != "" {
+					x.Cover("version-changes-lambda-list:" + k)
+				}
+			}
+		}
+	}
+	if shapedProg {
+		x.Cover("program:with-optional-rest-key-parameters")
+		guarded := strings.Count(c.Main, "(ignore-errors")
+		for _, fn := range c.Fns {
+			guarded += strings.Count(fn.Vers[0].Body, "(ignore-errors")
+		}
+		x.CoverN("call-sites-beyond-some-version's-lambda-list (inside ignore-errors)", guarded)
+	}
+
 	// ---------- family A: order x delivery mode x k evaluations ----------
 	m := ref.New(refBudget)
 	if err := refDefine(m, c); err != nil {
@@ -506,6 +682,7 @@ func exec(x *fw.Ctx, c Case) {
 	okCount, total := 0, 0
 	fwdCache := map[string]bool{}
 	observeOnly := false
+	reshaped := "" // histories: the most telling lambda-list change among the redefinitions so far
 	record := func(perm []int, mode, at string, rebind int, o obs, w want, src string) {
 		if observeOnly {
 			if kind, _ := judge(o, w); kind == "" {
@@ -533,6 +710,9 @@ func exec(x *fw.Ctx, c Case) {
 			rd = "2+"
 		}
 		cell := fmt.Sprintf("lamfree=%s fwdargs=%s rebind=%s", yn(lamfree), yn(fa), rd)
+		if reshaped != "" {
+			cell += " reshape=" + reshaped
+		}
 		if quotedCode {
 			cell = "quoted-code=y " + cell
 		}
@@ -748,6 +928,7 @@ func exec(x *fw.Ctx, c Case) {
 	for _, hr := range hruns {
 		{
 			perm, dmode := hr.perm, hr.dmode
+			reshaped = ""
 			_, _, fwd := fwdInfo(c, perm)
 			x.Cover("hist:defs-" + dmode)
 			hm := ref.New(refBudget)
@@ -793,6 +974,7 @@ func exec(x *fw.Ctx, c Case) {
 				continue
 			}
 			var objs []slip.Code
+			curVer := make([]int, n)
 			redefs := 0
 			redefCount := make([]int, n)
 			maxRedef := 0 // max over functions of (referenced before defined) + (times redefined)
@@ -812,12 +994,44 @@ func exec(x *fw.Ctx, c Case) {
 						x.Fail("harness: reference cannot redefine", "%s", err)
 						return
 					}
-					log = append(log, fmt.Sprintf("[redef compiled=%v] %s", st.Compiled, src))
+					via := st.Via
+					if via == "cstring" && 0 < len(c.Fns[st.Fn].Vers[st.Ver].Wrap) {
+						via = "" // CompileString hands back the last top-level form only
+					}
+					log = append(log, fmt.Sprintf("[redef compiled=%v via=%s] %s", st.Compiled, via, src))
 					redefs++
 					redefCount[st.Fn]++
 					maxRedef = max(maxRedef, fwd[st.Fn]+redefCount[st.Fn])
 					x.Cover(fmt.Sprintf("hist:redef#%d", min(redefCount[st.Fn], 3)))
+					x.Cover("hist:redef-delivered-via:" + via)
+					if k := reshape(c.Fns[st.Fn].Vers[curVer[st.Fn]], c.Fns[st.Fn].Vers[st.Ver]); k != "" {
+						x.Cover("hist:redef-changes-lambda-list:" + k)
+						for _, name := range reshapes {
+							if name == reshaped || name == k {
+								reshaped = name
+								break
+							}
+						}
+					}
+					curVer[st.Fn] = st.Ver
 					o = w.do(func() slip.Object {
+						switch via {
+						case "evalfn":
+							return slip.ReadString("(eval '"+src+")", w.scope).Eval(w.scope, nil)
+						case "cstring":
+							return slip.CompileString(src, w.scope).Eval(w.scope, 0)
+						case "load":
+							dir := os.Getenv("VERIF_WORKDIR")
+							if dir == "" {
+								dir = os.TempDir()
+							}
+							path := filepath.Join(dir, fmt.Sprintf("c08-%s-redef%d.lisp", w.sfx, si))
+							if err := os.WriteFile(path, []byte(src+"\n"), 0o644); err != nil {
+								panic("c08: cannot write load file: " + err.Error())
+							}
+							defer func() { _ = os.Remove(path) }()
+							return slip.ReadString(fmt.Sprintf("(load %q)", path), w.scope).Eval(w.scope, nil)
+						}
 						code := slip.ReadString(src, w.scope)
 						if st.Compiled {
 							code.Compile()
